@@ -20,7 +20,7 @@ SD = SPEC / "mem"
 # address palette (32-bit): IMEM start/end, just past IMEM, external edges, wrap aliases, mirror window, card window, ROM, overlay edges
 PALETTE = [0x100000, 0x100010, 0x1000FD, 0x100100, 0x000000, 0x000100, 0x0FFF00, 0x0FFF10, 0x0FFFFD, 0x0FFFFE,
            0x1100000, 0x10FFF10, 0x1000000, 0x080000, 0x088000, 0x0B8000, 0x0BFFFE, 0x040000, 0x041FFE, 0x04FFFE,
-           0x0C0000, 0x020000, 0x02000E, 0x0E0000, 0x80100010]
+           0x0C0000, 0x020000, 0x02000E, 0x0E0000, 0x80100010, 0x0C0FFE, 0x0C2000]
 
 CONFIGS: Dict[str, Dict[str, Any]] = {
     # name: {impl-independent description}
@@ -33,6 +33,10 @@ CONFIGS: Dict[str, Dict[str, Any]] = {
     "rom+rom-overlay": {"rom": True, "rom_overlay": [0x20008, [1, 2, 3, 4, 5, 6, 7, 8]]},
     "bare+mirror-off": {"mirror": False},
     "rom+readonly": {"rom": True, "readonly": [0x0C0000, 0x0FFFFF]},
+    # a ROM image shorter than the fixed ROM window (load_rom of 4 KiB): the rest of the window is unbacked but still read-only
+    # (the last 256 bytes of the window get their own ROM overlay, as in every full-ROM configuration, so that the recorded
+    #  finding about internal memory living in the top of the external array does not show through the unbacked part)
+    "shortrom": {"rom": True, "rom_len": 0x1000, "rom_overlay": [0xFFF00, [(i * 5 + 1) & 0xFF for i in range(256)]]},
 }
 
 
@@ -41,6 +45,8 @@ def boundaries(cfg: Dict[str, Any]) -> List[int]:
     b = [0x100000, 0x100100]
     if cfg.get("rom"):
         b.append(0xC0000)
+    if "rom_len" in cfg:
+        b.append(0xC0000 + cfg["rom_len"])
     b += [0x40000, 0x50000]
     if "card" in cfg:
         b.append(0x40000 + cfg["card"])
@@ -87,7 +93,7 @@ class PyBus:
         from pce500.memory import PCE500Memory
         m = PCE500Memory()
         if cfg.get("rom"):
-            rom = bytearray((i * 7 + 3) & 0xFF for i in range(0x40000))
+            rom = bytearray((i * 7 + 3) & 0xFF for i in range(cfg.get("rom_len", 0x40000)))
             m.load_rom(bytes(rom))
         if "card" in cfg:
             m.load_memory_card(bytes(cfg["card"]), cfg["card"])
@@ -114,7 +120,7 @@ class RsBus:
         c: Dict[str, Any] = {"mirror": cfg.get("mirror", True)}
         roms = []
         if cfg.get("rom"):
-            roms.append([0xC0000, [(i * 7 + 3) & 0xFF for i in range(0x40000)]])
+            roms.append([0xC0000, [(i * 7 + 3) & 0xFF for i in range(cfg.get("rom_len", 0x40000))]])
         if "rom_overlay" in cfg:
             roms.append(cfg["rom_overlay"])
         if roms:
@@ -129,7 +135,7 @@ class RsBus:
             c["readonly"] = [cfg["readonly"]]
         vh.call("mem.new", cfg=c)
         self.vh = vh
-        self.supported = True
+        self.supported = "rom_len" not in cfg       # a Rust ROM overlay is exactly as long as its data: no unbacked window to probe
 
     def load(self, addr, w):
         v = self.vh.call("mem.load", addr=addr, bits=8 * w)["v"]
